@@ -255,6 +255,28 @@ pub fn ops(seed: u64, scale: u32) -> Vec<Op> {
             h.0
         }));
     }
+    // results with many members (>= 64, up to 150): whatever converts or collects the result shapes must keep their order
+    if scale >= 1 {
+        for (n, tag) in [(70usize, "70"), (150, "150")] {
+            let sq = squares(n, 3.0, 1.0);
+            let sq1 = sq.clone();
+            add(format!("unary_union.{tag}squares.disjoint"), Box::new(move || dig_mp(&unary_union(&sq1))));
+            let a = MultiPolygon::new(sq.clone());
+            // the same squares moved by half a side: n overlapping pairs, results of n .. 3n members
+            let b = MultiPolygon::new(sq.iter().map(|p| { use geo::Translate; p.translate(0.5, 0.5) }).collect());
+            for (k, name) in ["intersection", "union", "difference", "xor"].iter().enumerate() {
+                let (a, b) = (a.clone(), b.clone());
+                add(format!("boolop.{name}.{tag}squares"), Box::new(move || {
+                    dig_mp(&match k {
+                        0 => a.intersection(&b),
+                        1 => a.union(&b),
+                        2 => a.difference(&b),
+                        _ => a.xor(&b),
+                    })
+                }));
+            }
+        }
+    }
     // polygon with holes through stitch (donut ordering)
     {
         let p = Polygon::new(
